@@ -608,6 +608,15 @@ def results_untouched(setups, algs):
     return True
 
 
+def stub_alg_name(case, a, i):
+    """Name of algorithm a in setup i.  Names only have to be unique inside one SingleSetup: besides per-setup distinct names the stub
+    setups use the SAME name for an algorithm in every setup (the ordinary way of working: every setup has its "SSIcov") and the class's
+    default name (no name given), chosen by a digest of the layout so that every scheme occurs in every run."""
+    import zlib
+    scheme = zlib.crc32(repr((case["sensors"], case.get("refs"))).encode()) % 3
+    return ("alg%d_of_setup%d" % (a, i), "alg%d" % a, None)[scheme]
+
+
 def build_poser(case, algs, classes):
     from pyoma2.setup import MultiSetup_PoSER, SingleSetup
 
@@ -616,7 +625,8 @@ def build_poser(case, algs, classes):
         ss = SingleSetup(np.zeros((8, len(case["sensors"][i]))), fs=16.0)
         objs = []
         for a, sub in enumerate(algs):
-            alg = classes[a](name="alg%d_of_setup%d" % (a, i), p=a)
+            nm_i = stub_alg_name(case, a, i)
+            alg = classes[a](name=nm_i, p=a) if nm_i is not None else classes[a](p=a)
             alg.payload = payload(sub, i)
             objs.append(alg)
         ss.add_algorithms(*objs)
@@ -738,10 +748,11 @@ def run_ssi(case):
             y += np.outer(a * np.exp(-case["xi"][r] * w * t) * np.cos(w * np.sqrt(1 - case["xi"][r] ** 2) * t + ph), Phi[:, r])
         ss = SingleSetup(case["amps"][i] * y[:, s], fs=fs)
         kw = dict(br=case["br"], ordmax=2 * n, ref_ind=list(case["refs"][i]))
-        alg = SSIcov(name="ssi_%d" % i, method="cov_mm", **kw) if case["alg"] == "SSIcov" else SSIdat(name="ssi_%d" % i, **kw)
+        nm_i = "ssi_%d" % i if len(case["sensors"]) % 2 else "ssi"   # the same name in every setup is the ordinary way of working
+        alg = SSIcov(name=nm_i, method="cov_mm", **kw) if case["alg"] == "SSIcov" else SSIdat(name=nm_i, **kw)
         ss.add_algorithms(alg)
         ss.run_all()
-        ss.mpe("ssi_%d" % i, sel_freq=[float(fn[r]) for r in case["sel"]], order=2 * n)
+        ss.mpe(nm_i, sel_freq=[float(fn[r]) for r in case["sel"]], order=2 * n)
         setups.append(ss)
         per.append((np.asarray(alg.result.Fn, float), np.asarray(alg.result.Xi, float), np.asarray(alg.result.Phi)))
     return fn, Phi, per, setups
@@ -1100,7 +1111,8 @@ def run(ctx):
             ss = SingleSetup(np.zeros((8, len(case["sensors"][i]))), fs=16.0)
             objs = []
             for a, sub in enumerate(algs):
-                alg = classes[cls_idx[i][a] if cls_idx else a](name="alg%d_of_setup%d" % (a, i), p=a)
+                nm_i = stub_alg_name(case, a, i) if not cls_idx else "alg%d_of_setup%d" % (a, i)
+                alg = classes[cls_idx[i][a] if cls_idx else a](name=nm_i, p=a) if nm_i is not None else classes[a](p=a)
                 alg.payload = payload(sub, i)
                 objs.append(alg)
             ss.add_algorithms(*objs)
